@@ -46,6 +46,10 @@ Inductive case :=
   (* same set-up, but the process is not killed: the write that would cross [limit] fails
      (EFBIG) and persist() takes its error path; the process then exits normally *)
 | CaseIoErr (whitelist : list str) (old : str) (o : op) (limit : nat) (local : option str) (temps : list str)
+            (re_m re_wild : list str) (old_m old_wild new_m new_wild : list str)
+  (* same set-up, but one of the other steps of persist() is made to return an error (system
+     call filter in the child process): which = 0 CreateTemp, 1 Sync, 2 Close, 3 Rename *)
+| CaseFault (whitelist : list str) (old : str) (o : op) (which : nat) (local : option str) (temps : list str)
             (re_m re_wild : list str) (old_m old_wild new_m new_wild : list str).
 
 (* ---- helpers *)
@@ -266,6 +270,18 @@ Definition check_case (c : case) : bool :=
        else opt_str_eqb local (Some old)) &&
       let b := load_initial whitelist [] (match local with Some f => [f] | None => [] end) in
       same_set (bm b) re_m && same_set (bwild b) re_wild
+  | CaseFault whitelist old o which local temps re_m re_wild old_m old_wild new_m new_wild =>
+      let b0 := load_initial whitelist [] [old] in
+      let '(_, snapped, b1) := apply_op o b0 in
+      same_set (bm b0) old_m && same_set (bwild b0) old_wild &&
+      same_set (bm b1) new_m && same_set (bwild b1) new_wild &&
+      snapped && (which <? 4)%nat &&
+      (* the order of the lines plays no role for a step that fails: Model.fail_at *)
+      let s := snapshot_of 1 b1 in
+      let d := fail_at (mk_disk (Some old) []) s (fault_step s which) 0 in
+      opt_str_eqb local (d_local d) && is_nil temps && is_nil (d_temps d) &&
+      let b := load_initial whitelist [] (disk_files d) in
+      same_set (bm b) re_m && same_set (bwild b) re_wild
   end.
 
 Definition spec_reply (nr nr6 : N) (qname : str) (qtype : N) (obs : outcome) : bool :=
@@ -345,4 +361,10 @@ Definition spec_case (c : case) : bool :=
       (opt_str_eqb local (Some old) ||
        match local with Some f => file_is_snapshot new_m new_wild f | None => false end) &&
       (spec_equiv w old_m old_wild re_m re_wild || spec_equiv w new_m new_wild re_m re_wild)
+  | CaseFault whitelist old o which local temps re_m re_wild old_m old_wild new_m new_wild =>
+      (* the save did not complete (no temp file, a temp file that could not be synced or
+         closed and so may be partial on the medium, or no rename): `local` is still the
+         previous complete file, byte for byte, and a restart comes back with the previous list *)
+      let w := whitelist_of whitelist in
+      opt_str_eqb local (Some old) && spec_equiv w old_m old_wild re_m re_wild
   end.
